@@ -354,6 +354,8 @@ def ev(t, env, W):
             return {"Less": 255, "Equal": 0, "Greater": 1}[t[2]]
         if len(t) > 4 and t[4] and len(t[4]) == len(t[3]):
             return ("struct", adt, tuple((f, ev(x, env, W)) for f, x in zip(t[4], t[3])))
+        if len(t) > 5 and not t[3] and t[5] is not None:
+            return ("enumv", adt, t[2], t[5])
         return OPAQUE
     if k == "TU":
         return ("tuple", tuple(ev(x, env, W) for x in t[1]))
@@ -377,6 +379,8 @@ def ev(t, env, W):
                 return 0
             if b[0] == "Err":
                 return 1
+            if b[0] == "enumv":
+                return b[3]
             if b[0] == "Continue":
                 return 0
             if b[0] == "Break":
@@ -618,6 +622,10 @@ def _prim_atom(name, label, t, env, W):
                 return PI("u32", b if ux == 0 else (ux & -ux).bit_length() - 1)
             if name == "count_ones":
                 return PI("u32", bin(ux).count("1"))
+            if name in ("overflowing_add", "overflowing_sub", "overflowing_mul") and len(args) == 2 and isinstance(args[1], PI):
+                r_ = x + args[1].v if name == "overflowing_add" else (x - args[1].v if name == "overflowing_sub" else x * args[1].v)
+                lo_, hi_ = (-(1 << (b - 1)), (1 << (b - 1)) - 1) if ty.startswith("i") else (0, (1 << b) - 1)
+                return ("tuple", (_wrap_prim(ty, r_), not (lo_ <= r_ <= hi_)))
             if name in ("checked_shr", "checked_shl") and len(args) == 2 and isinstance(args[1], PI):
                 if not (0 <= args[1].v < b):
                     return ("None",)
@@ -649,6 +657,43 @@ def _prim_atom(name, label, t, env, W):
         if o == ("None",):
             return ("Break", ("None",))
         return OPAQUE
+    mm = re.match(r"^(BUintD32|BUintD16|BUintD8|BUint)<N>::from_buf_radix_internal::<N, (true|false), (true|false)>$", label)
+    if mm and len(t[2]) == 3:
+        # contract of the parser core (the part of C10 that no rule decides): optional sign byte skipped, every
+        # remaining byte must be a digit below the radix, the value must fit
+        buf, radix, sign = (ev(x, env, W) for x in t[2])
+        if not (isinstance(buf, tuple) and buf and buf[0] == "arr" and isinstance(radix, PI) and isinstance(sign, bool)):
+            return OPAQUE
+        adt, from_str, be = mm.group(1), mm.group(2) == "true", mm.group(3) == "true"
+
+        def err(kind):
+            vi = {"Empty": 0, "InvalidDigit": 1, "PosOverflow": 2, "NegOverflow": 3, "Zero": 4}[kind]
+            return ("Err", ("struct", "ParseIntError", (("kind", ("enumv", "IntErrorKind", kind, vi)),)))
+        bs = [d.v for d in buf[1]]
+        if sign:
+            if len(bs) <= 1:
+                return err("InvalidDigit")
+            bs = bs[1:]
+        if not bs:
+            return OPAQUE
+        ds = []
+        for bt in bs:
+            if from_str:
+                c = chr(bt)
+                dv = bt - 48 if "0" <= c <= "9" else (bt - 87 if "a" <= c <= "z" else (bt - 55 if "A" <= c <= "Z" else 255))
+            else:
+                dv = bt
+            if dv >= radix.v:
+                return err("InvalidDigit")
+            ds.append(dv)
+        if not be:
+            ds = ds[::-1]
+        val = 0
+        for dv in ds:
+            val = val * radix.v + dv
+        if val >= (1 << W.bits(adt)):
+            return err("PosOverflow")
+        return ("Ok", W.wrap(adt, val))
     if label in ("str::is_empty",) or label.startswith("[T]::is_empty"):
         a = ev(t[2][0], env, W)
         if isinstance(a, tuple) and a and a[0] in ("arr", "str"):
